@@ -143,7 +143,7 @@ def iter (g : Graph) (s : State) (w : Nat) : Step :=
     let prev := wd.path.getD (wd.path.length - 2) 0
     if isOccupied g s next w then
       let nd := g.node next
-      let mt : Int := nd.maxTries.getD 1
+      let mt : Int := max (nd.maxTries.getD 1) 1        -- `max(max_tries, 1)`: max_tries=0 still waits one timeout
       let dur : Int := nd.timeout * mt                 -- seconds
       let q : Nat := max (dur.toNat / 10) 10           -- hundredths: round(max(dur/1000, 0.1), 2)
       let qf : Float := Float.ofNat q / 100.0          -- the double Python's round(…, 2) yields
